@@ -188,6 +188,10 @@ STD_QUICK = ["flow_proposal_class:AugmentedFlowProposal", "linear_transform:svd"
 INS_BASE = dict(init=dict(importance_nested_sampler=True, nlive=60, min_samples=20, max_iteration=4, plot=False, checkpointing=False,
                           reparameterisation=None),
                 flow=dict(n_blocks=2, n_neurons=4), training=dict(max_epochs=5, patience=5), run=dict(plot=False, save=True))
+# real neural flows in the importance sampler are given enough epochs to be usable (placed BEFORE the option's own spec, which
+# wins): with the 5 epochs of INS_BASE a flow can end up with an acceptance of 1e-5 inside the unit hypercube and one draw then
+# takes 45 000 batches (4 minutes) -- slow, not stuck, but indistinguishable from stuck inside the wall-clock bound
+REAL_FLOW_TRAINING = dict(training=dict(max_epochs=40, patience=40))
 INS_OPTIONS = {
     "threshold_method": [opt("quantile", init=dict(threshold_method="quantile")), opt("entropy", init=dict(threshold_method="entropy")),
                          opt("quantile-q0.5", init=dict(threshold_method="quantile", threshold_kwargs=dict(q=0.5)))],
@@ -305,6 +309,7 @@ def build(base, specs):
 # one bounded run
 # ------------------------------------------------------------------------------------------------
 ACC_MAX_SAMPLES = 20_000
+INS_DRAW_BATCH_LIMIT = 4000     # batches inside ONE ImportanceFlowProposal.draw call (one suffices when the flow is usable)
 
 
 class Budget:
@@ -318,6 +323,38 @@ class Budget:
         self.call_batches, self.call_limit = 0, 2000
         self.call_empty = self.call_badw = 0
         self.since_progress, self.last_progress, self.accepted = 0, time.time(), 0
+        self.ins_call_batches = self.ins_call_nonempty = 0
+        self.in_ins_draw = False
+
+    # ---- the draw loop of the importance proposal (`while n_accepted < n and n_draw > 0`)
+    def start_ins_draw(self):
+        self.hit("ins_draws")
+        self.ins_call_batches = self.ins_call_nonempty = 0
+        self.in_ins_draw = True
+
+    def end_ins_draw(self):
+        self.in_ins_draw = False
+        self.last_progress = time.time()
+
+    def ins_draw_is_accepting(self):
+        """out of time INSIDE one draw call of the importance proposal whose batches do hold points inside the unit hypercube:
+        the loop `while n_accepted < n` is advancing (it ends with probability one), the run is slow, not stuck"""
+        return self.in_ins_draw and self.ins_call_nonempty > 0
+
+    def ins_batch(self):
+        """one batch drawn from a flow (ImportanceFlowModel.sample_ith)"""
+        self.ins_call_batches += 1
+        if self.ins_call_batches > INS_DRAW_BATCH_LIMIT:
+            n = self.ins_call_batches - 1
+            if self.ins_call_nonempty == 0:
+                raise BudgetExceeded(f"no-progress: ImportanceFlowProposal.draw drew {n} batches from the flow in one call, none with "
+                                     "a single point inside the unit hypercube")
+            raise SlowPopulation(f"ImportanceFlowProposal.draw drew {n} batches in one call; {self.ins_call_nonempty} held points inside "
+                                 "the unit hypercube")
+
+    def ins_nonempty(self):
+        """a batch reached compute_log_Q: at least one of its points is finite and inside the unit hypercube"""
+        self.ins_call_nonempty += 1
 
     def progress(self):
         """the sampler accepted a new live point / finished an iteration"""
@@ -383,6 +420,19 @@ def _wrap_after(cls, name, after):
     return mock.patch.object(cls, name, wrapper)
 
 
+def _wrap_both(cls, name, before, after):
+    orig = getattr(cls, name)
+
+    def wrapper(self, *a, **k):
+        before(self)
+        out = orig(self, *a, **k)
+        after(out)
+        return out
+
+    wrapper.__name__ = name
+    return mock.patch.object(cls, name, wrapper)
+
+
 def _wrap(cls, name, before, with_args=False):
     orig = getattr(cls, name)
 
@@ -407,6 +457,7 @@ def run_one(sampler, cfg, seed, wall, fake_flows=True, budget=None):
     from nessai.proposal.rejection import RejectionProposal
     from nessai.proposal.augmented import AugmentedFlowProposal
     from nessai.proposal.importance import ImportanceFlowProposal
+    from nessai.flowmodel.importance import ImportanceFlowModel
     from nessai import config as nconfig
     from harness.c03 import FakeFlows, make_model
 
@@ -460,7 +511,9 @@ def run_one(sampler, cfg, seed, wall, fake_flows=True, budget=None):
         _wrap_after(FlowProposal, "compute_weights", lambda out: budget.batch_weights(out[0] if isinstance(out, tuple) else out)),
         _wrap(NestedSampler, "insert_live_point", lambda self: budget.progress()),
         _wrap(ImportanceNestedSampler, "update_evidence", lambda self: budget.progress()),
-        _wrap(ImportanceFlowProposal, "draw", lambda self: budget.hit("ins_draws")),
+        _wrap_both(ImportanceFlowProposal, "draw", lambda self: budget.start_ins_draw(), lambda out: budget.end_ins_draw()),
+        _wrap(ImportanceFlowModel, "sample_ith", lambda self: budget.ins_batch()),
+        _wrap(ImportanceFlowProposal, "compute_log_Q", lambda self: budget.ins_nonempty()),
         _wrap(ImportanceFlowProposal, "draw_from_flows", lambda self: budget.hit("ins_draws")),
     ]
 
@@ -508,7 +561,8 @@ def run_one(sampler, cfg, seed, wall, fake_flows=True, budget=None):
         res.update(status="slow", phase=state["phase"], exc=type(e).__name__, msg=str(e))
     except (BudgetExceeded, WallClockExceeded) as e:
         # out of wall-clock time while iterations were still being completed: slow, not stuck (max_iteration is finite)
-        slow = isinstance(e, WallClockExceeded) and budget.accepted > 0 and time.time() - budget.last_progress < 0.25 * wall
+        slow = isinstance(e, WallClockExceeded) and ((budget.accepted > 0 and time.time() - budget.last_progress < 0.25 * wall)
+                                                     or budget.ins_draw_is_accepting())
         res.update(status="slow" if slow else "hang", phase=state["phase"], exc=type(e).__name__, msg=str(e))
     except Exception as e:  # noqa
         tb = traceback.extract_tb(e.__traceback__)
@@ -546,7 +600,7 @@ def finding_key(sampler, labels, res, root_cause=False):
     pairwise array — a population that spins because no batch can accept anything is keyed by its cause (the loop has no
     guard), not by the option values that happened to drive the flow there"""
     text = ",".join(labels)
-    if root_cause and res["exc"] == "BudgetExceeded" and res["msg"].startswith("no-progress"):
+    if root_cause and res["exc"] == "BudgetExceeded" and res["msg"].startswith("no-progress: one population"):
         return NO_GUARD_KEY
     for smp, frags, excs, txt, key in KNOWN_KEYS:
         if smp != sampler or res["exc"] not in excs or txt not in res["msg"]:
